@@ -416,10 +416,48 @@ def tie_break_of(prop, r):
         m = re.search(r"ev=(\d+)", r.l2)
         ev2 = int(m.group(1)) if m else 0
         if r.l1 is None or r.l1["ev"] > ev2 or "field=structure" not in r.l2 and r.l1 is None:
+            if r.kind == "rr" and not rr_mirror_ok():
+                # the slot-level rr model replays the mirrored draws too; they are not the implementation's
+                RRDRAW["struct"] += 1
+                return None
             return "private structure differs from the slot-level model: " + r.l2
     if spec["judge"] in ("L1", "TWIN") and r.l1:
+        if rr_draws_only(r):
+            RRDRAW["scripts"] += 1
+            return None
         return "model and implementation disagree: " + r.l1["text"]
     return None
+
+
+RRDRAW = {"scripts": 0, "struct": 0, "mirror": None}
+
+
+def rr_mirror_ok():
+    """Does the implementation's rr_cache draw its victims the way the harness mirrors them?  A sequential probe:
+    capacity 3, twelve fresh keys (nine evictions) through the script harness and the driver; a first difference at
+    an insert (marker RRDRAW) with the reference semantics accepting the script = not mirrored.  Cached per run."""
+    if RRDRAW["mirror"] is None:
+        exe, _ = harness_build()
+        if exe is None:
+            RRDRAW["mirror"] = True
+        else:
+            script = ["cfg rr 3 0 0 1 2 16 single ts=1 lf=1.0 val=u seed=4242"] + [
+                "op 0 1000000000 ins %d %d iu 0" % (k, 100 + k) for k in range(12)] + ["end"]
+            RRDRAW["mirror"] = not rr_draws_only(run_one(exe, script, ()))
+    return RRDRAW["mirror"]
+
+
+
+def rr_draws_only(r):
+    """rr_cache: the model is fed the random outcomes the harness *mirrors* (same engine, same seed, one
+    uniform_int_distribution per eviction).  If the implementation draws differently (another way of producing a
+    uniform index), the first difference is a different victim at an evicting insert while everything else still
+    agrees - and the reference semantics, which lets an evicting insert remove *any* resident, accepts the whole
+    script.  That is not a broken correspondence: the model's input (the draws) could not be observed.  C15's
+    first clause (a prior resident, never the new key, exactly one) is then decided by the acceptor alone and its
+    spread clause by the spread probe."""
+    return (r.kind == "rr" and r.l1 is not None and "RRDRAW" in r.l1["props"] and not r.acc and not r.crash
+            and not r.bad and r.maxcands <= 400)
 
 
 def ops_of(script):
@@ -612,6 +650,68 @@ def nontrivial(r):
     return (st.get("evictions", 0) + st.get("reaped", 0) + st.get("expired", 0) + st.get("rejected", 0)) > 0 and st.get("hits", 0) > 0
 
 
+
+# ---------------------------------------------------------------------------------------------
+# C15: spread probe (harness/rrspread.cpp) - which resident positions do rr_cache's evictions reach?
+# ---------------------------------------------------------------------------------------------
+
+SPREAD_EDGES = [255, 256, 257, 258, 511, 512, 513, 1000, 1023, 1024, 1025, 2047, 2048, 2049, 4095, 4096, 4097, 10000, 65537]
+
+
+def spread_caps(tier):
+    if tier == "thorough":
+        return list(range(1, 1101)) + [c for c in SPREAD_EDGES if c > 1100] + [8191, 8193, 16385, 32769, 131073]
+    return list(range(1, 130)) + SPREAD_EDGES
+
+
+def spread_build():
+    os.makedirs(CACHE, exist_ok=True)
+    exe = os.path.join(CACHE, "spread-" + harness_hash())
+    if os.path.exists(exe):
+        return exe, "cached"
+    for old in [x for x in os.listdir(CACHE) if x.startswith("spread-")]:
+        os.unlink(os.path.join(CACHE, old))
+    r = sh(["g++", "-std=c++17", "-O2", "-I" + os.path.join(REPO, "inc"), os.path.join(HARNESS, "rrspread.cpp"), "-o", exe + ".tmp", "-pthread"])
+    if r.returncode != 0:
+        return None, r.stderr[-2000:]
+    os.rename(exe + ".tmp", exe)
+    return exe, "built"
+
+
+def spread_probe(caps):
+    """-> (summary dict, list of (cap, text) where a resident position is immune / one position always chosen)."""
+    exe, log = spread_build()
+    if exe is None:
+        return {"built": False, "note": "probe does not compile against the current rr_cache: " + log[-300:]}, []
+    try:
+        r = subprocess.run([exe] + [str(c) for c in caps], stdout=subprocess.PIPE, stderr=subprocess.PIPE, text=True, timeout=600)
+    except subprocess.TimeoutExpired:
+        return {"built": True, "note": "probe timed out"}, []
+    rows, bad, inconclusive = [], [], 0
+    for l in r.stdout.splitlines():
+        t = l.split()
+        if len(t) != 14 or t[0] != "cap":
+            continue
+        d = {t[i]: int(t[i + 1]) for i in range(0, 14, 2)}
+        rows.append(d)
+        if d["records"] != d["evictions"] or d["positions"] > d["cap"] or d["missing"]:
+            # the value-assignment pattern is not the one the probe understands (or an insert failed): no verdict
+            inconclusive += 1
+            continue
+        if d["positions"] < d["cap"]:
+            bad.append((d["cap"], "capacity %d: %d of %d resident positions were never chosen in %d evictions" % (d["cap"], d["cap"] - d["positions"], d["cap"], d["evictions"])))
+        elif d["cap"] >= 2 and d["max"] >= d["evictions"]:
+            bad.append((d["cap"], "capacity %d: one position was chosen in all %d evictions" % (d["cap"], d["evictions"])))
+    summ = {"built": True, "exit": r.returncode, "capacities": len(rows), "evictions": sum(d["evictions"] for d in rows),
+            "inconclusive_capacities": inconclusive,
+            "least_hits_of_any_position_over_40xcap_evictions": min([d["min"] for d in rows] or [0]),
+            "most_hits_of_any_position": max([d["max"] for d in rows] or [0]),
+            "rule": "per capacity: fill, 40 x capacity evicting inserts; a position = the address of the value that is overwritten; every position must be hit (P[false alarm] < cap * e^-40)"}
+    if r.returncode != 0 and not rows:
+        summ["note"] = "probe died: " + r.stderr[-300:]
+    return summ, bad
+
+
 def main_seq(prop, tier, seed, t0):
     spec = P.PROPS[prop]
     out = []
@@ -628,6 +728,18 @@ def main_seq(prop, tier, seed, t0):
     # 2. harness (C08: with the friend hook, so that the private structure can be compared)
     struct = bool(spec.get("struct"))
     exe, hlog = harness_build(hooks=struct)
+    struct_note = None
+    if exe is None and struct:
+        # The friend-hook dump (harness/dump.hpp) names private members.  If only *it* no longer compiles (members
+        # renamed / retyped), the behavioural tie is intact: the L2 models are still run on the same calls and
+        # compared on every output, and the sanitizers still watch the real code.  Only the member-for-member
+        # comparison is unavailable; that is recorded, not reported as a violation.
+        exe2, hlog2 = harness_build(hooks=False)
+        if exe2 is not None:
+            struct_note = ("structural comparison skipped: harness/dump.hpp does not compile against the current private "
+                           "layout (" + hlog.strip().splitlines()[0][:200] + "); L2 models compared on outputs only, sanitizers as usual")
+            print("NOTE: " + struct_note)
+            exe, hlog, struct = exe2, hlog2, False
     xargs = ("--struct",) if struct else ()
     if exe is None:
         # the headers no longer compile with the harness: the correspondence cannot be run at all
@@ -659,7 +771,21 @@ def main_seq(prop, tier, seed, t0):
         print(l)
     violations = 0
     rc = 0
-    if fails:
+    extra_cov = {}
+    spread_bad = []
+    if prop == "C15":
+        extra_cov["spread_probe"], spread_bad = spread_probe(spread_caps(tier))
+        extra_cov["rr_scripts_whose_draws_could_not_be_mirrored"] = RRDRAW["scripts"]
+    if prop == "C08" and RRDRAW["struct"]:
+        extra_cov["rr_scripts_whose_structure_was_not_compared_because_the_draws_could_not_be_mirrored"] = RRDRAW["struct"]
+    if spread_bad and not fails:
+        cap, why = spread_bad[0]
+        path = write_replay(prop, seed, len(spread_bad), ["spread %d" % c for c, _ in spread_bad[:5]],
+                            "property C15 (spread clause) fails on the implementation\n%s\n(%d capacities affected; replay with: ./check C15 --replay <this file>)" % (why, len(spread_bad)))
+        print("VIOLATION property=%s replay=%s" % (prop, path))
+        violations = len(spread_bad)
+        rc = 1
+    elif fails:
         r, why = fails[0]
         pred = lambda x: failure_of(prop, x) is not None  # noqa: E731
         small = shrink(exe, r.script, pred) if len(ops_of(r.script)) > 1 else r.script
@@ -684,7 +810,9 @@ def main_seq(prop, tier, seed, t0):
         print("VIOLATION property=%s replay=%s no-failing-input-found" % (prop, path))
         violations = len(ties)
         rc = 1
-    finish(prop, tier, seed, t0, spec, audit, scripts, results, ncorpus, violations, extra={"harness": hlog, "known_finding_signatures_seen": sorted(kf_seen)})
+    finish(prop, tier, seed, t0, spec, audit, scripts, results, ncorpus, violations,
+           extra=dict({"harness": hlog, "known_finding_signatures_seen": sorted(kf_seen)}, **extra_cov,
+                      **({"structural_tier": struct_note} if struct_note else {})))
     return rc
 
 
@@ -759,6 +887,15 @@ def replay(prop, path):
         print("build failed", log[-2000:], hlog)
         return 2
     script = load_script(path)
+    if script and script[0].startswith("spread "):
+        summ, bad = spread_probe([int(l.split()[1]) for l in script if l.startswith("spread ")])
+        print(json.dumps(summ, indent=1))
+        for _, why in bad:
+            print(why)
+        if bad:
+            print("VIOLATION property=%s replay=%s" % (prop, path))
+            return 1
+        return 0
     if not script or script[0].startswith("no script"):
         print(open(path).read())
         return 0
